@@ -36,7 +36,7 @@ Record milp_case := mkK {
 }.
 
 Definition run_case (k : milp_case) : option milp_result :=
-  solve_milp (simplex_kernel (k_eps k)) (fun _ => k_lns_answer k) (k_eps k) (k_gap k) (k_min k)
+  solve_milp (simplex_kernel (lp_eps (k_eps k))) (fun _ => k_lns_answer k) (k_eps k) (k_gap k) (k_min k)
     (match k_iter k with None => milp_max_iter_default | Some i => i end)
     (match k_nodes k with None => milp_max_nodes_default | Some i => i end)
     (k_c k) (k_A k) (k_b k) (k_ints k) (k_warm k) (k_limit k) (k_heur k) (k_lns k).
